@@ -87,6 +87,10 @@ inductive Out (α : Type)
   | panic
 deriving Repr, BEq, Inhabited
 
+def Out.isOk {α : Type} : Out α → Bool
+  | .ok _ => true
+  | _ => false
+
 /-- `messages.FromBlock` -/
 inductive Start
   | number (n : Nat)        -- `uint`
@@ -165,32 +169,34 @@ def bytesToHash (b : Bytes) : Bytes :=
 /-- `binary.LittleEndian.Uint32(b)`: panics on a slice shorter than 4 -/
 def le32? (b : Bytes) : Option Nat := if b.length < 4 then none else some (natOfLE (b.take 4))
 
+/-- `BlockRequestMessage.Decode` after `proto.Unmarshal` -/
+def blockRequestGlue (msg : Proto.BlockRequest) : Out Msg :=
+  -- `switch from := msg.FromBlock.(type)`: the starting block pointer and the `err` variable
+  let sw : Out (Option Start × Bool) :=
+    match msg.fromBlock with
+    | .hash b => .ok (some (.hash (bytesToHash b)), false)
+    | .number b =>
+      if b.length ≠ 4 then .err
+      else match le32? b with
+        | none => .panic
+        | some n => .ok (some (.number n), false)
+    | .unset => .ok (none, true)
+  match sw with
+  | .err => .err
+  | .panic => .panic
+  | .ok (startingBlock, e) =>
+    if e then .err
+    else match startingBlock with
+      | none => .panic                       -- `*startingBlock` with a nil pointer
+      | some s =>
+        .ok (.blockReq ⟨msg.fields / 16777216 % 256, s, msg.direction % 256,
+          if msg.maxBlocks ≠ 0 then some msg.maxBlocks else none⟩)
+
 /-- `BlockRequestMessage.Decode` -/
 def decodeBlockRequest (bs : Bytes) : Out Msg :=
   match goParse bs with
   | none => .err
-  | some fs =>
-    let msg := BlockRequest.ofFields fs
-    -- `switch from := msg.FromBlock.(type)`: the starting block pointer and the `err` variable
-    let sw : Out (Option Start × Bool) :=
-      match msg.fromBlock with
-      | .hash b => .ok (some (.hash (bytesToHash b)), false)
-      | .number b =>
-        if b.length ≠ 4 then .err
-        else match le32? b with
-          | none => .panic
-          | some n => .ok (some (.number n), false)
-      | .unset => .ok (none, true)
-    match sw with
-    | .err => .err
-    | .panic => .panic
-    | .ok (startingBlock, e) =>
-      if e then .err
-      else match startingBlock with
-        | none => .panic                       -- `*startingBlock` with a nil pointer
-        | some s =>
-          .ok (.blockReq ⟨msg.fields / 16777216 % 256, s, msg.direction % 256,
-            if msg.maxBlocks ≠ 0 then some msg.maxBlocks else none⟩)
+  | some fs => blockRequestGlue (BlockRequest.ofFields fs)
 
 /-- `types.NewBodyFromBytes` (`none` = error) -/
 def newBodyFromBytes (b : Bytes) : Option Val :=
@@ -205,29 +211,36 @@ def newBodyFromEncodedBytes (exts : List Bytes) : Option Val :=
 
 def optBytesOf (b : Bytes) : Option Bytes := if b = [] then none else some b
 
-/-- `protobufToBlockData` (proto3: an empty `bytes` field is nil) -/
+/-- `if pbd.Header != nil { scale.Unmarshal(pbd.Header, header) }` (proto3: an empty `bytes` field is nil) -/
+def headerOf (b : Bytes) : Out (Option Val) :=
+  if b = [] then .ok none
+  else match C11.unmarshal headerTy b with
+    | some (v, _) => .ok (some v)
+    | none => .err
+
+/-- `if pbd.Body != nil { types.NewBodyFromEncodedBytes(pbd.Body) }` -/
+def bodyOf (exts : List Bytes) : Out (Option Val) :=
+  if exts = [] then .ok none
+  else match newBodyFromEncodedBytes exts with
+    | some v => .ok (some v)
+    | none => .err
+
+/-- justification and the `is_empty_justification` flag -/
+def justOf (j : Bytes) (isEmpty : Bool) : Option Bytes :=
+  if j ≠ [] then some j else if isEmpty then some [] else none
+
+/-- `protobufToBlockData` -/
 def protobufToBlockData (d : Proto.BlockData) : Out BlockDataMsg :=
-  let header : Out (Option Val) :=
-    if d.header = [] then .ok none
-    else match C11.unmarshal headerTy d.header with
-      | some (v, _) => .ok (some v)
-      | none => .err
-  match header with
+  match headerOf d.header with
   | .err => .err
   | .panic => .panic
   | .ok h =>
-    let body : Out (Option Val) :=
-      if d.body = [] then .ok none
-      else match newBodyFromEncodedBytes d.body with
-        | some v => .ok (some v)
-        | none => .err
-    match body with
+    match bodyOf d.body with
     | .err => .err
     | .panic => .panic
     | .ok b =>
       .ok ⟨bytesToHash d.hash, h, b, optBytesOf d.receipt, optBytesOf d.messageQueue,
-        if d.justification ≠ [] then some d.justification
-        else if d.isEmptyJustification then some [] else none⟩
+        justOf d.justification d.isEmptyJustification⟩
 
 /-- the `repeated BlockData blocks = 1` fold: nested messages parsed by the same library -/
 def blocksOf : List WField → Option (List Proto.BlockData)
@@ -309,11 +322,19 @@ def entriesOf : Val → List Bytes
   | .list vs => vs.map (C11.marshal bytesT)
   | _ => []
 
+def headerBytes : Option Val → Bytes
+  | some v => C11.marshal headerTy v
+  | none => []
+
+def bodyEntries : Option Val → List Bytes
+  | some v => entriesOf v
+  | none => []
+
 /-- `blockDataToProtobuf` -/
 def blockDataToProto (m : BlockDataMsg) : Proto.BlockData :=
   { hash := m.hash,
-    header := match m.header with | some v => C11.marshal headerTy v | none => [],
-    body := match m.body with | some v => entriesOf v | none => [],
+    header := headerBytes m.header,
+    body := bodyEntries m.body,
     receipt := optToBytes m.receipt,
     messageQueue := optToBytes m.messageQueue,
     justification := optToBytes m.justification,
